@@ -115,7 +115,7 @@ def call(rng):
     hi = rng.choice([0x00, 0xFF, 0x00, 0xFF, rng.below(256)])
     return Insn("call", bytes([rng.below(256), rng.below(256), 0x00 if hi == 0 else (0xFF if hi == 0xFF else rng.below(256)), hi]))
 
-def make_func(rng, name, shape=None):
+def make_func(rng, name, shape=None, force=None):
     shape = shape or rng.choice(["push", "push", "msvc", "msvc", "fp", "fp", "fpsave", "chained", "chained2", "large", "leaf"])
     f = PeFunc(name, shape)
     r0 = Region()
@@ -134,6 +134,8 @@ def make_func(rng, name, shape=None):
         fpreg = rng.choice([5, 5, 5, 3, 6, 7, 13, 14, 15])
         nv.remove(fpreg)
     npush = rng.range(0, 4)
+    if force and "npush" in force:
+        npush = force["npush"]
     pushes = nv[:npush]
     rest = nv[npush:]
     if use_fp:
@@ -142,9 +144,13 @@ def make_func(rng, name, shape=None):
     earlies = rest[:nearly]
     rest = rest[nearly:]
     nsave = rng.range(1, 2) if shape == "fpsave" or (shape in ("push", "large") and rng.chance(1, 3)) else 0
+    if force:
+        nearly, nsave, earlies = 0, 0, []
     saves = rest[:nsave]
     # every non-leaf function allocates the 32 bytes of home space its callees may use
-    if shape == "large":
+    if force and "alloc" in force:
+        alloc = force["alloc"]
+    elif shape == "large":
         alloc = rng.choice([0x88, 0x1000, 0x7fff8, 0x80000, 0x100010])
     elif shape == "chained2" and not use_fp and rng.chance(1, 3):
         # primary allocation just below 512 KiB: together with the cold region's own allocation the frame exceeds it
@@ -250,6 +256,9 @@ def make_program(rng, nfuncs=8):
     for need in ("msvc", "fp", "chained", "leaf"):
         if need not in shapes:
             funcs.append(make_func(rng, "f%d" % len(funcs), need))
+    # the largest allocation the 16-bit form of UWOP_ALLOC_LARGE can state, with nothing pushed before it: with the
+    # return address the frame is exactly 65536 words
+    funcs.append(make_func(rng, "f%d" % len(funcs), "large", force=dict(npush=0, alloc=rng.choice([0x7fff8, 0x7fff8, 0x7fff0]))))
     # layout: regions in shuffled order, separated by int3 padding
     regs = [(f, k) for f in funcs for k in range(len(f.regions))]
     rng.shuffle(regs)
